@@ -113,10 +113,11 @@ Fixpoint inl (fuel : nat) (k : klass) (en : env) (body : events) {struct fuel} :
   end.
 
 Definition flow_fuel : nat := 24.
-(* the flattened (call-free) event tree of a public call k.m(...) with default flags *)
+(* the flattened (call-free) event tree of a public call k.m(...): the caller's boolean arguments are
+   unknown (path(restore_best_weights=...)), those of the inner calls are evaluated *)
 Definition flow (k : klass) (m : string) : events :=
   match find_method k m with
-  | Some mt => inl flow_fuel k (m_flags mt) (m_body mt)
+  | Some mt => inl flow_fuel k [] (m_body mt)
   | None => ECons (Stuck m) ENil
   end.
 
@@ -160,26 +161,28 @@ with clean (es : events) : bool := match es with ENil => true | ECons e r => cle
 
 (* Must-written analysis.  W = attributes certainly (re)written since the call started.  A load of a
    non-hyper-parameter attribute that is not in W is a stale read (its value, or its very existence,
-   comes from an earlier call): None.  Otherwise Some W' with W' the set after the events. *)
-Fixpoint check1 (hp : list string) (e : event) (W : list string) {struct e} : option (list string) :=
+   comes from an earlier call): None.  Otherwise Some W' with W' the set after the events.
+   check_is_fitted looks for any attribute with a trailing underscore: its answer is independent of
+   earlier calls as soon as all such attributes the class can hold (dm) have been rewritten. *)
+Fixpoint check1 (hp dm : list string) (e : event) (W : list string) {struct e} : option (list string) :=
   match e with
   | Read a | Save a | Mut a => if mem a hp || mem a W then Some W else None
   | Write a | Restore a => Some (a :: W)
   | ReadParams => Some W
-  | CheckFitted => if existsb last_is_us W then Some W else None
-  | Branch a b => match check hp a W, check hp b W with Some Wa, Some Wb => Some (inter Wa Wb) | _, _ => None end
-  | Loop b => match check hp b W with Some _ => Some W | None => None end
+  | CheckFitted => if forallb (fun a => mem a hp || mem a W) (filter last_is_us dm) then Some W else None
+  | Branch a b => match check hp dm a W, check hp dm b W with Some Wa, Some Wb => Some (inter Wa Wb) | _, _ => None end
+  | Loop b => match check hp dm b W with Some _ => Some W | None => None end
   | Finally b f =>
-    match check hp b W with
-    | Some Wb => match check hp f W with Some _ => check hp f Wb | None => None end
+    match check hp dm b W with
+    | Some Wb => match check hp dm f W with Some _ => check hp dm f Wb | None => None end
     | None => None
     end
   | Call _ _ _ | CallAt _ _ _ _ | IfFlag _ _ _ | Stuck _ => None
   end
-with check (hp : list string) (es : events) (W : list string) {struct es} : option (list string) :=
+with check (hp dm : list string) (es : events) (W : list string) {struct es} : option (list string) :=
   match es with
   | ENil => Some W
-  | ECons e r => match check1 hp e W with Some W' => check hp r W' | None => None end
+  | ECons e r => match check1 hp dm e W with Some W' => check hp dm r W' | None => None end
   end.
 
 (* inside a protected region only the saved hyper-parameter a may be re-bound *)
@@ -199,26 +202,27 @@ with only (hp : list string) (a : string) (es : events) : bool :=
 
 (* Hyper-parameters are unchanged after the events, also when an exception interrupts them: no store
    to a hyper-parameter, except inside  v = self.a; try: ... finally: self.a = v  where only a is
-   re-bound. *)
+   re-bound (sv = the attribute saved by the immediately preceding event). *)
+Definition saved_by (e : event) : option string := match e with Save a => Some a | _ => None end.
 Fixpoint pres1 (hp : list string) (e : event) : bool :=
   match e with
   | Write a | Mut a | Restore a => negb (mem a hp)
-  | Branch a b => pres hp a && pres hp b
-  | Loop b => pres hp b
-  | Finally b f => pres hp b && pres hp f
+  | Branch a b => presS hp None a && presS hp None b
+  | Loop b => presS hp None b
+  | Finally b f => presS hp None b && presS hp None f
   | Call _ _ _ | CallAt _ _ _ _ | IfFlag _ _ _ | Stuck _ => false
   | _ => true
   end
-with pres (hp : list string) (es : events) : bool :=
+with presS (hp : list string) (sv : option string) (es : events) : bool :=
   match es with
   | ENil => true
   | ECons e r =>
-    match e, r with
-    | Save a, ECons (Finally b (ECons (Restore a') ENil)) r' =>
-      if String.eqb a a' then only hp a b && pres hp r' else pres1 hp e && pres hp r
-    | _, _ => pres1 hp e && pres hp r
-    end
+    (match sv, e with
+     | Some a, Finally b (ECons (Restore a') ENil) => (String.eqb a a' && only hp a b) || pres1 hp e
+     | _, _ => pres1 hp e
+     end) && presS hp (saved_by e) r
   end.
+Definition pres (hp : list string) (es : events) : bool := presS hp None es.
 
 (* ------------------------------------------------------------------------------------------ per-class facts *)
 Definition fit_flow (k : klass) : events := flow k "fit".
@@ -229,9 +233,9 @@ Definition has_method (k : klass) (m : string) : bool := match find_method k m w
 
 (* along fit every fitted attribute is written before it is read *)
 Definition no_stale_read (k : klass) : bool :=
-  clean (fit_flow k) && match check (hps k) (fit_flow k) [] with Some _ => true | None => false end.
+  clean (fit_flow k) && match check (hps k) (dom k) (fit_flow k) [] with Some _ => true | None => false end.
 Definition fit_must (k : klass) : list string :=
-  match check (hps k) (fit_flow k) [] with Some W => W | None => [] end.
+  match check (hps k) (dom k) (fit_flow k) [] with Some W => W | None => [] end.
 (* every fitted attribute that any public call can leave behind is rewritten by every complete fit *)
 Definition fit_overwrites_all (k : klass) : bool := subset (dom k) (fit_must k).
 (* fit stores into no hyper-parameter *)
@@ -242,10 +246,10 @@ Definition predict_methods_write_nothing (k : klass) : bool :=
 (* path: present only on the sparse classes; hyper-parameters are restored, history independent *)
 Definition path_restores_params (k : klass) : bool := negb (has_method k "path") || pres (hps k) (flow k "path").
 Definition path_must (k : klass) : list string :=
-  match check (hps k) (flow k "path") [] with Some W => W | None => [] end.
+  match check (hps k) (dom k) (flow k "path") [] with Some W => W | None => [] end.
 Definition path_no_stale_read (k : klass) : bool :=
   negb (has_method k "path") ||
-  (clean (flow k "path") && match check (hps k) (flow k "path") [] with Some W => subset (dom k) W | None => false end).
+  (clean (flow k "path") && match check (hps k) (dom k) (flow k "path") [] with Some W => subset (dom k) W | None => false end).
 (* the flows of the public methods a class has are fully resolved *)
 Definition resolved (k : klass) : bool := forallb (fun m => negb (has_method k m) || clean (flow k m)) public_ops.
 (* every attribute is a hyper-parameter or follows the fitted naming convention, never both *)
@@ -260,7 +264,8 @@ Definition stores_ok (k : klass) : bool :=
   nodupb (k_args k) &&
   forallb (fun a => match store_of k a with
                     | [(_, Some src)] => String.eqb src a
-                    | _ => false end) (k_args k).
+                    | _ => false end) (k_args k) &&
+  forallb (fun s => match snd s with Some p => mem p (k_args k) | None => true end) (k_stores k).
 
 Definition all_facts (k : klass) : bool :=
   no_stale_read k && fit_overwrites_all k && no_hyperparam_write k && predict_methods_write_nothing k &&
@@ -306,6 +311,8 @@ Definition start (d : dict) : cfg := mk_cfg d empty [] 0 false.
 Definition tick (c : cfg) : cfg := mk_cfg (c_at c) (c_saved c) (c_obs c) (S (c_pc c)) (c_ab c).
 Definition observe (c : cfg) (o : list obsv) : cfg := mk_cfg (c_at c) (c_saved c) (o ++ c_obs c) (S (c_pc c)) (c_ab c).
 Definition store (c : cfg) (a : string) (v : option V) : cfg := mk_cfg (upd (c_at c) a v) (c_saved c) (c_obs c) (S (c_pc c)) (c_ab c).
+Definition save (c : cfg) (a : string) : cfg :=
+  mk_cfg (c_at c) (upd (c_saved c) a (c_at c a)) (OV (c_at c a) :: c_obs c) (S (c_pc c)) (c_ab c).
 Definition set_ab (c : cfg) (b : bool) : cfg := mk_cfg (c_at c) (c_saved c) (c_obs c) (c_pc c) b.
 Definition is_some (o : option V) : bool := match o with Some _ => true | None => false end.
 
@@ -317,7 +324,7 @@ Fixpoint exec1 (I : interp) (hp dm : list string) (e : event) (c : cfg) {struct 
     if i_abort I (c_pc c) (c_obs c) then set_ab c true else
     match e with
     | Read a => observe c [OV (c_at c a)]
-    | Save a => mk_cfg (c_at c) (upd (c_saved c) a (c_at c a)) (OV (c_at c a) :: c_obs c) (S (c_pc c)) (c_ab c)
+    | Save a => save c a
     | Write a => store c a (Some (i_write I (c_pc c) (c_obs c)))
     | Restore a => c
     | Mut a => store c a (Some (i_mut I (c_pc c) (c_obs c) (c_at c a)))
@@ -373,7 +380,7 @@ Definition track_step (k : klass) (t : tstate) (h : hop) : bool * tstate :=
   | HSetParams => (false, t)
   | HCall m raised =>
     let fl := flow k m in
-    match check (hps k) fl (t_must t) with
+    match check (hps k) (dom k) fl (t_must t) with
     | Some W => (negb (clean fl), mk_t (if raised then t_must t else W) (wrs fl ++ t_may t))
     | None => (true, mk_t (t_must t) (wrs fl ++ t_may t))
     end
